@@ -5,21 +5,30 @@
 // public seams mempool.DefaultMemPool and Engine.BodyAllocator, one fresh instance per run): double
 // free, Append/Realloc after free, read after free at the observation points (the fake
 // connection's Write, the handler's view of the request body, a ParserCloser's Parse), write after
-// free by poison sweep. The spaces are enumerated exhaustively within their bounds; each lives in
-// its own file and registers itself:
+// free by poison sweep. A read of a freed buffer that passes no observation point (free the cache,
+// then copy the tail out of it; keep scanning a released cache) is seen in two ways: in poison
+// mode a content oracle compares, after every Parse call, what the parser retains (carry-over
+// cache, message / body under assembly) with the input and searches what it reports (callback
+// arguments, error texts, written bytes) for the poison pattern; in guard mode (track.EnableGuard)
+// a freed buffer is inaccessible memory and the access faults where it happens. The spaces are
+// enumerated exhaustively within their bounds; each lives in its own file and registers itself:
 //
 //	resp.go    the C09 handler-program space (explicit-state BFS), every allocator policy, and for
 //	           every program every position k at which the k-th connection write fails
-//	parser.go  HTTP parser feeds: request / response streams in every single-cut segmentation, with
-//	           the connection closed (CloseAndClean) at every cut and at the end, and with an
-//	           Upgrade hand-over to a stub ParserCloser
-//	ws.go      (other builder) WebSocket spaces
+//	parser.go  HTTP parser feeds: request / response streams in one to four reads (every single cut,
+//	           every / every structural pair and triple of cuts) and in fixed-size pieces, with the
+//	           connection closed (CloseAndClean) at a cut or at the end, and with an Upgrade
+//	           hand-over to a stub ParserCloser
+//	ws.go      WebSocket spaces: frame sequences x receiver configurations x faults, one to four
+//	           reads and byte at a time; sender side with failing writes
 //
 // Scheduled scenarios (close racing in-flight work) are added by the coordinator through
 // buildScheduled.
 //
 // A violation's signature is the monitor's: kind + allocating / freeing / using call sites
-// (function names only).
+// (function names only). For poison found by the content oracle the freeing buffer is the one
+// freed last before the buffer holding the poison was allocated; for a guard fault it is the
+// buffer the faulting address lies in and the use site is the faulting function.
 package main
 
 import (
@@ -121,6 +130,7 @@ func main() {
 		Rule: rule,
 		Assumptions: append([]string{
 			"the tracking allocator never recycles memory, so a misuse is observed where it happens instead of as corruption elsewhere; capacity policies exact / pooled (cap >= 1024) / stale (pooled + recycled contents) and a moving Append (as mempool.NewAligned) are all run",
+			"two ways to see a use of a freed buffer that passes no allocator call: poison mode (Free overwrites the buffer; observation points compare addresses, a content oracle looks for the poison in what the parsers retain and report, a sweep finds writes) and guard mode (Free makes the buffer's pages inaccessible, any read or write by the code under test faults at the instruction; nbio's recover logs the fault, the address identifies the buffer). A recovered fault lets the entry point return as after any recovered panic",
 			"Free of memory the allocator never handed out (zero-capacity fabricated slices) is not a violation; leaks are not violations (pools are garbage collected)",
 			"a failing connection write returns (0, err) and every later write fails too",
 		}, assumptions...),
